@@ -196,6 +196,20 @@ def constructed(rng):
     for s in near:
         for op in ("parse", "tryfrom_str", "tryfrom_string", "str2dec"):
             out.append("%s %s" % (op, E.hexs(s)))
+    # coefficient * 10^exponent exactly at the i128 boundary: floor(M / 10^k) + {-1, 0, 1, 2} with exponent k,
+    # also written with a fraction point inside the digits
+    for k in range(1, 39):
+        for d in (-1, 0, 1, 2):
+            c = M // P10[k] + d
+            if c <= 0:
+                continue
+            cs = str(c)
+            forms = ["%se%d" % (cs, k), "-%sE+%d" % (cs, k), "%s.e%d" % (cs, k)]
+            for cut in range(1, len(cs)):
+                if rng.random() < 0.3:
+                    forms.append("%s.%se%d" % (cs[:cut], cs[cut:], k + len(cs) - cut))
+            for lit in forms:
+                out.append("%s %s" % (rng.choice(OPS), E.hexs(lit)))
     # boundary digit strings
     bases = []
     for d in range(-3, 4):
